@@ -136,7 +136,12 @@ def judge_candidate(cs, c, k, res, refine, panic_msg):
         if E in ends: shared = True
         ends.append(E); ends.append(I)
     if shared: key += ':shared-bridge-vertex'
-    return ('fail', key, 'from_polygon returned Err for a well-conditioned polygon (%s%s)' % (cond_note(cs, c), ', a vertex carries two bridges' if shared else ''))
+    # the merged outline is built with Loop3D::push, which drops a vertex that is collinear (|ab x bc| < 1e-5) with its neighbours:
+    # when a bridge happens to be collinear with the hole (or outline) edge that follows it, push drops the bridge's end vertex
+    # and the walk cannot be closed any more
+    merge_lost = bool(getattr(c, 'merge_lost', False))
+    if merge_lost: key += ':merge-drops-vertex'
+    return ('fail', key, 'from_polygon returned Err for a well-conditioned polygon (%s%s)' % (cond_note(cs, c), (', a vertex carries two bridges' if shared else '') + (', push dropped a vertex of the merged outline' if merge_lost else '')))
 
 def judge_parts(k, A, i0, res, panic_msg):
     cs, key = G.prepare(A, i0, [])
